@@ -235,6 +235,41 @@ func combos() []combo {
 			model: func(subs [][]strategy.Action, cl []float64) []strategy.Action { return modelStopLoss(subs[0], cl, pct) },
 			inv:   func(out []strategy.Action, cl []float64) string { return stopLossInvariant(out, cl, pct) }})
 	}
+	// group strategies nested directly inside group strategies: the outer vote is over the inner group's STANDING recommendation
+	and2 := func(a, b strategy.Strategy) strategy.Strategy { return strategy.NewAndStrategy("and", a, b) }
+	or2 := func(a, b strategy.Strategy) strategy.Strategy { return strategy.NewOrStrategy("or", a, b) }
+	maj3 := func(a, b, c strategy.Strategy) strategy.Strategy {
+		return strategy.NewMajorityStrategyWith("maj", []strategy.Strategy{a, b, c})
+	}
+	sub := func(xs ...[]strategy.Action) [][]strategy.Action { return xs }
+	cs = append(cs,
+		combo{name: "Or(And(a,b),c)", k: 3, build: func(s []strategy.Strategy) strategy.Strategy { return or2(and2(s[0], s[1]), s[2]) },
+			model: func(subs [][]strategy.Action, cl []float64) []strategy.Action {
+				return modelOr(sub(modelAnd(subs[:2], cl), subs[2]), cl)
+			}},
+		combo{name: "And(Or(a,b),c)", k: 3, build: func(s []strategy.Strategy) strategy.Strategy { return and2(or2(s[0], s[1]), s[2]) },
+			model: func(subs [][]strategy.Action, cl []float64) []strategy.Action {
+				return modelAnd(sub(modelOr(subs[:2], cl), subs[2]), cl)
+			}},
+		combo{name: "Majority(And(a,b),c,Or(a,b))", k: 3, build: func(s []strategy.Strategy) strategy.Strategy {
+			return maj3(and2(s[0], s[1]), s[2], or2(&stubStrategy{word: s[0].(*stubStrategy).word}, &stubStrategy{word: s[1].(*stubStrategy).word}))
+		},
+			model: func(subs [][]strategy.Action, cl []float64) []strategy.Action {
+				return modelMajority(sub(modelAnd(subs[:2], cl), subs[2], modelOr(subs[:2], cl)), cl)
+			}},
+		combo{name: "And(Majority(a,b,c))", k: 3, build: func(s []strategy.Strategy) strategy.Strategy {
+			return strategy.NewAndStrategy("and", maj3(s[0], s[1], s[2]))
+		},
+			model: func(subs [][]strategy.Action, cl []float64) []strategy.Action {
+				return modelAnd(sub(modelMajority(subs, cl)), cl)
+			}},
+		combo{name: "Split(And(a,b),Or(a,c))", k: 3, build: func(s []strategy.Strategy) strategy.Strategy {
+			return strategy.NewSplitStrategy(and2(s[0], s[1]), or2(&stubStrategy{word: s[0].(*stubStrategy).word}, s[2]))
+		},
+			model: func(subs [][]strategy.Action, cl []float64) []strategy.Action {
+				return modelSplit(sub(modelAnd(subs[:2], cl), modelOr(sub(subs[0], subs[2]), cl)), cl)
+			}},
+	)
 	// nesting depth 2
 	cs = append(cs,
 		combo{name: "NoLoss(Inverse)", k: 1, needs: true, build: func(s []strategy.Strategy) strategy.Strategy {
@@ -400,7 +435,7 @@ func macdRsiUnit(c *core.Ctx, p [4]int, L int) {
 func init() {
 	core.Register(&core.Check{
 		ID:   "C07",
-		Rule: "combinators over scripted stub strategies: every tuple of action words over {Sell,Hold,Buy} (k=1: length<=7, k=2: <=5, k=3: <=3 quick / 4 thorough, k=4: <=2 / 3, k=5,6: 1 / 2) and, for the price-dependent decorators, every closing word over {1,2,4,3} of the same length (<=5), stop-loss percentages {0,0.25,0.5}, decorator nesting depth 2; each case is one execution of the real combinator under the controlled scheduler; oracle: documented position-wise combination / reference state machine, plus the No-Loss and Stop-Loss safety invariants evaluated on the whole history; MACD-RSI against its real sub-strategies run separately; states = cases, non-trivial = distinct emitted action words per unit",
+		Rule: "combinators over scripted stub strategies: every tuple of action words over {Sell,Hold,Buy} (k=1: length<=7, k=2: <=5, k=3: <=3 quick / 4 thorough, k=4: <=2 / 3, k=5,6: 1 / 2) and, for the price-dependent decorators, every closing word over {1,2,4,3} of the same length (<=5), stop-loss percentages {0,0.25,0.5}, decorator nesting depth 2, group strategies nested in group strategies; each case is one execution of the real combinator under the controlled scheduler; oracle: documented position-wise combination / reference state machine, plus the No-Loss and Stop-Loss safety invariants evaluated on the whole history; MACD-RSI against its real sub-strategies run separately; states = cases, non-trivial = distinct emitted action words per unit",
 		Assume: []string{"stub strategies emit exactly one scripted action per snapshot (equal lengths); closings positive", "percentage is a fraction as the code documents (closing*(1-Percentage))"},
 		Units: func(tier string) []core.Unit {
 			var us []core.Unit
